@@ -157,6 +157,7 @@ def check(pid, tier):
                 json.dump({s_: {"run": r_["idx"], "detail": v_["detail"]}
                            for s_, (r_, v_) in unknown.items()}, fh, indent=1)
         reported = []
+        unreproducible = []
         n_min = int(os.environ.get("VERIF_MINIMISE_N", "3"))
         seen_final = set()
         for sig, (r, v) in list(unknown.items()):
@@ -201,10 +202,26 @@ def check(pid, tier):
             path = write_replay(pid, seed, tier, r["idx"], best, fv, nexec)
             rr = _fresh(["replay", path, "--quiet"])
             if rr.returncode != 1 or fv["sig"] not in rr.stdout:
-                log(rr.stdout[-2000:], rr.stderr[-2000:])
-                harness_exit(f"non-reproducible violation sig={fv['sig']} "
-                             f"replay={path}")
+                # not a function of the run dictionary alone: the outcome
+                # depends on what the worker process did before (state kept
+                # in module or class attributes of the library).  The replay
+                # then re-executes the worker's earlier runs first.
+                log(f"replay of {fv['sig']} alone does not reproduce it; "
+                    f"replaying the worker's {len(r.get('history', []))} "
+                    f"earlier runs first")
+                path = write_replay(pid, seed, tier, r["idx"], r["run"], v,
+                                    0, history=r.get("history", []))
+                rr = _fresh(["replay", path, "--quiet"], cap=1500)
+                if rr.returncode != 1 or v["sig"] not in rr.stdout:
+                    log(rr.stdout[-2000:], rr.stderr[-2000:])
+                    unreproducible.append((v["sig"], path))
+                    continue
+                fv = v
             reported.append((fv, path, r["idx"]))
+        if unreproducible and not reported:
+            harness_exit(f"non-reproducible violation sig="
+                         f"{unreproducible[0][0]} replay="
+                         f"{unreproducible[0][1]}")
     finally:
         pool.close()
 
@@ -269,7 +286,7 @@ def determinism_sample(pid, seed, tier, configs, results, m):
                    "of 16 workers"}
 
 
-def write_replay(pid, seed, tier, idx, run, v, nexec):
+def write_replay(pid, seed, tier, idx, run, v, nexec, history=None):
     d = os.environ.get("VERIF_REPLAY_DIR", os.path.join(VERIF, "replays"))
     os.makedirs(d, exist_ok=True)
     path = os.path.join(d, f"{pid}-{seed}-{tier}-{idx}.json")
@@ -277,7 +294,15 @@ def write_replay(pid, seed, tier, idx, run, v, nexec):
         json.dump({"property": pid, "seed": seed, "tier": tier,
                    "run_index": idx, "signature": v["sig"],
                    "detail": v.get("detail", ""),
-                   "minimise_executions": nexec, "run": run}, fh, indent=1,
+                   "minimise_executions": nexec, "run": run,
+                   **({"history": {"lru": run["config"]["lru"],
+                                   "indices": list(history)},
+                       "note": "the outcome depends on state the library "
+                               "keeps across objects in one process: the "
+                               "replay first re-executes the runs the worker "
+                               "had executed before (regenerated from seed, "
+                               "tier and index), then this run"}
+                      if history else {})}, fh, indent=1,
                   default=str)
     return path
 
@@ -369,6 +394,11 @@ def replay(path, quiet=False):
         sys.exit(1 if hit else 0)
     from . import worker as W
     W.setup(src, rep["run"]["config"]["lru"])
+    if rep.get("history"):
+        mm = W.machine(pid)
+        for i_ in rep["history"]["indices"]:
+            W.execute(pid, mm.generate(rep["seed"], rep["tier"], i_,
+                                       rep["history"]["lru"]))
     res = W.execute(pid, rep["run"])
     o = W.out()
     if res["status"] == "harness":
